@@ -137,7 +137,8 @@ class Region:
 
 
 class Extractor:
-    def __init__(self, repo, contracts_dir, canary=False, force_demote=None):
+    def __init__(self, repo, contracts_dir, canary=False, force_demote=None, no_isolation=None):
+        self.no_isolation = set(no_isolation or [])  # fn paths whose loops are verified without loop isolation (retry)
         self.force_demote = force_demote or {}   # fn path -> reason (compile-like error found by the verifier in it)
         self.canary = canary     # vacuity probe: `assert(false)` at the start of every function under contract
         self.repo = repo
@@ -673,6 +674,9 @@ class Extractor:
             f["ins"] = [("attr", None, 1, "#[verifier::external_body] /* assumed here, proved in another unit */\n", f["where"])] + \
                        [x for x in f["ins"] if x[0] in ("attr", "sig")]
             f["assumed_elsewhere"] = True
+        if f["kind"] == "fn" and f["path"] in self.no_isolation and not f.get("assumed_elsewhere") and not f.get("demoted") \
+                and not any(k == "attr" and "loop_isolation" in t for (k, _, _, t, _) in f["ins"]):
+            f["ins"] = [("attr", None, 1, "#[verifier::loop_isolation(false)]\n", f["where"])] + list(f["ins"])
         if self.canary and f["kind"] == "fn" and not f.get("assumed_elsewhere") and body_open >= 0 \
                 and not any(k == "attr" and "external_body" in t for (k, _, _, t, _) in f["ins"]):
             f["ins"] = list(f["ins"]) + [("atstart", None, 1, "        proof { assert(false); } // vacuity canary\n", f["where"])]
@@ -850,8 +854,8 @@ class Extractor:
         self.fnmap.append(rec)
 
 
-def build_unit(repo, contracts_dir, unit, outdir, canary=False, force_demote=None):
-    ex = Extractor(repo, contracts_dir, canary=canary, force_demote=force_demote)
+def build_unit(repo, contracts_dir, unit, outdir, canary=False, force_demote=None, no_isolation=None):
+    ex = Extractor(repo, contracts_dir, canary=canary, force_demote=force_demote, no_isolation=no_isolation)
     tpl = os.path.join(contracts_dir, "units", unit + ".vrs")
     ex.run_template(tpl)
     text = "".join(ex.out)
